@@ -23,7 +23,7 @@ pub fn codecs_of(name: &str) -> Vec<&'static str> {
     let all = crate::cx::CODECS.to_vec();
     match name {
         "c10" | "c10all" => vec!["dna", "text", "mdna", "miupac", "degen"],
-        "c12" | "c12all" | "c14" | "c14all" => vec!["iupac"],
+        "c12" | "c12all" | "c14" | "c14all" | "c14order" => vec!["iupac"],
         "c12dna" | "c13" | "c19conv" => vec!["dna"],
         "c15" => vec!["dna", "iupac"],
         "c20" | "c20all" => vec!["mdna", "miupac"],
@@ -63,6 +63,7 @@ pub fn run<A: Cx>(name: &str, seed: u64, scale: usize, stream: Option<&str>) -> 
         "c12dna" => c12::run_dna_singletons(&mut d),
         "c13" => c13::run_c13(&mut d, scale),
         "c14" => c13::run_c14(&mut d, &[0, 14]),
+        "c14order" => c13::run_c14_order(&mut d),
         "c14all" => c13::run_c14(&mut d, &(0..16).collect::<Vec<_>>()),
         "c15" => c13::run_c15(&mut d, scale),
         "c18" => c18::run(&mut d, scale, false),
